@@ -45,6 +45,10 @@ type FFCase struct {
 	Held   []Op      `json:"held"` // acknowledged, not flushed when the flush fails
 	Fault  string    `json:"fault"`
 	After  []Op      `json:"after"`
+	// AtClose: no explicit Flush is made while the fault is present and the
+	// cause is only removed after Close, so that the flush that fails is the
+	// one inside Close.
+	AtClose bool `json:"at_close,omitempty"`
 }
 
 func genFF(t *rapid.T) FFCase {
@@ -62,6 +66,10 @@ func genFF(t *rapid.T) FFCase {
 	c.Held = genOps(t, genMix(t, []string{opPut, opRemove}, []int{5, 1}), len(c.Keys), c.Cfg, 1, 6, false)
 	c.Fault = []string{"stray-next-primary-file", "stray-dir-at-next-index-file"}[rapid.IntRange(0, 1).Draw(t, "fffault")]
 	c.After = genOps(t, m, len(c.Keys), c.Cfg, 0, 8, false)
+	if weighted(t, "atclose", []int{2, 1}) == 1 {
+		c.AtClose = true
+		c.After = nil
+	}
 	return c
 }
 
@@ -121,17 +129,28 @@ func runFF(c FFCase) (failed bool, v *Violation) {
 			strays = append(strays, name)
 		}
 		apply(c.Held)
-		ferr := s.Flush()
-		failed = ferr != nil
-		for _, name := range strays {
-			if fi, err := os.Lstat(name); err == nil && (fi.IsDir() || fi.Size() == 5) {
-				if b, _ := os.ReadFile(name); fi.IsDir() || string(b) == "stray" {
-					os.Remove(name)
+		var ferr, cerr error
+		unstray := func() {
+			for _, name := range strays {
+				if fi, err := os.Lstat(name); err == nil && (fi.IsDir() || fi.Size() == 5) {
+					if b, _ := os.ReadFile(name); fi.IsDir() || string(b) == "stray" {
+						os.Remove(name)
+					}
 				}
 			}
 		}
-		apply(c.After)
-		cerr := s.Close()
+		if c.AtClose {
+			cerr = s.Close()
+			ferr = cerr
+			failed = cerr != nil
+			unstray()
+		} else {
+			ferr = s.Flush()
+			failed = ferr != nil
+			unstray()
+			apply(c.After)
+			cerr = s.Close()
+		}
 		s2, err := openStore(dir, c.Cfg)
 		if err != nil {
 			if cerr == nil && failed {
@@ -172,7 +191,9 @@ func runFF(c FFCase) (failed bool, v *Violation) {
 			}
 			if sym != "" {
 				what := "no Flush failed"
-				if failed {
+				if c.AtClose {
+					what = fmt.Sprintf("the environment (%s) stood in the way of the flush inside Close", c.Fault)
+				} else if failed {
 					what = fmt.Sprintf("one explicit Flush failed (%v), its cause (%s) was removed and the calls went on", ferr, c.Fault)
 				}
 				return viol("contents-differ-after-nil-close|after-failed-flush|"+sym, -1, "%s; Close returned nil, but after reopening key %d reads (%s, found=%v, err=%v) instead of (%s, present=%v)", what, k, shortBytes(got), found, err, shortBytes(want), present)
@@ -257,7 +278,9 @@ func TestC02(t *testing.T) {
 		c := genFF(rt)
 		failed, v := runFF(c)
 		cl := []string{"failed-flush-in-the-history"}
-		if failed {
+		if failed && c.AtClose {
+			cl = append(cl, "failed-flush-in-the-history:close-did-fail("+c.Fault+")")
+		} else if failed {
 			cl = append(cl, "failed-flush-in-the-history:flush-did-fail("+c.Fault+")")
 		}
 		ev.Record(c, failed, cl...)
